@@ -42,7 +42,7 @@ prop('C03', units=['bk'], level='proof',
      not_covered=['identity is proved in exact arithmetic; accumulated Decimal rounding is not modelled'],
      witnesses=[])
 
-prop('C04', units=['bk', 'agg'], level='proof',
+prop('C04', units=['bk', 'agg', 'drv'], level='proof',
      technique='Verus: type invariant of ConstrainedDecimal (>= 0), sum invariant wf() of the affiliate status table, delta_for_tx Err <==> step_reject, prefix invariant of the driver; witnesses for message visibility',
      level_text='Deductive proof (Verus) of non-negativity, all-affiliate total = sum, registered => no cost base/gain, rejection iff impossible (model E), correct prefix before an error. Visibility of the message in every output mode is outside contracts and only watched by CLI witnesses.',
      level_note=BK_NOTE + ' D13 (rounded split factor) is invisible to model E and guarded by its witness only.',
@@ -57,7 +57,7 @@ prop('C15', units=['bk', 'ord'], level='proof',
      not_covered=['whole-history induction over the fold', 'rounded split factors (model E)', 'acceptance of rounded factors'],
      witnesses=['D13'])
 
-prop('C16', units=['bk', 'ord'], level='proof',
+prop('C16', units=['bk', 'ord', 'drv'], level='proof',
      technique='Verus: AffiliatePortfolioSecurityStatuses::new view postcondition + lemma_opening_equiv (opening status == state after an opening Buy) + ledger fold from init_stv',
      level_text='Deductive proof (Verus) that the ledger started from an opening status equals the ledger after the corresponding Default-affiliate purchase (state equality, then the same fold).',
      level_note=BK_NOTE,
@@ -72,7 +72,7 @@ prop('C17', units=['costs'], level='proof',
      witnesses=['D1', 'D2b'])
 
 
-ALL_UNITS = ['bk', 'agg', 'ord', 'costs', 'summary', 'fx', 'conv', 'pdf']
+ALL_UNITS = ['bk', 'agg', 'ord', 'costs', 'summary', 'fx', 'conv', 'pdf', 'drv']
 
 prop('C05', units=ALL_UNITS, level='proof',
      technique='Verus: every unwrap/expect/assert!/panic!/index/slice/division and every loop (decreases) inside the extracted functions is a discharged obligation (run-time assertions are shadowed by rt_assert(requires cond))',
@@ -89,14 +89,14 @@ prop('C06', units=['agg'], level='proof',
      not_covered=['rounding half away from zero to cents in rendered strings (dollar_precision_str, render.rs)', 'footer string assembly'],
      witnesses=[])
 
-prop('C07', units=['ord', 'bk'], level='proof',
+prop('C07', units=['drv', 'ord', 'bk'], level='proof',
      technique='Verus: impl Ord/PartialOrd for Tx and CsvTx == (settlement date, read index); split_txs_by_security == order-preserving filter per security',
      level_text='Deductive proof (Verus) of the ordering key and of the stable per-security partition. Header handling, column permutation and read-index assignment live in csv-crate/string code and are not covered.',
      level_note=BK_NOTE + ' std slice::sort is assumed stable and correct w.r.t. cmp_spec; parse_tx_csv read indices are assumed.',
      not_covered=['header case/padding/unknown columns (parse_tx_csv)', 'global_read_index accumulation in the async I/O driver'],
      witnesses=[])
 
-prop('C08', units=['ord', 'agg', 'bk'], level='proof',
+prop('C08', units=['drv', 'ord', 'agg', 'bk'], level='proof',
      technique='Verus: split_txs_by_security (map[s] == filter(all, s)), get_cumulative_capital_gains (table = exactly the accepted ledgers; aggregate = sum over that table), ledger contract mentions one security only',
      level_text='Deductive proof (Verus) that the per-security input is the stable filter of the rows, that a failing security is absent from the gains table and the aggregate sums exactly the accepted ones. The driver loop of run_acb_app_to_delta_models (async I/O) is watched by witness D15 only.',
      level_note=BK_NOTE,
